@@ -22,3 +22,16 @@ Proof. split; reflexivity. Qed.
 
 Lemma renamer_numbers_in_user_order : renamer_rule = ByUser.
 Proof. reflexivity. Qed.
+
+(* cross-set models: every stage of field 1 is built from position 0 of the per-field parameters, every stage of field 2
+   from position 1, and each keyword is fed by the parameter of that meaning *)
+Definition wiring_ok (w : string * string * string * nat) : bool :=
+  let '(obj, kw, param, idx) := w in
+  let field2 := orb (orb (String.eqb obj "preprocessor2") (String.eqb obj "pca2")) (String.eqb obj "whitener2") in
+  Nat.eqb idx (if field2 then 1 else 0) &&
+  existsb (fun e => String.eqb (fst e) kw && String.eqb (snd e) param)
+    [("feature_name", "feature_name"); ("with_center", "center"); ("with_std", "standardize"); ("with_coslat", "use_coslat");
+     ("check_nans", "check_nans"); ("n_modes", "n_pca_modes"); ("init_rank_reduction", "pca_init_rank_reduction");
+     ("use_pca", "use_pca"); ("alpha", "alpha")].
+Lemma cross_wiring_ok : forallb wiring_ok cross_wiring = true /\ concatenator_splits_in_insertion_order = true.
+Proof. split; reflexivity. Qed.
